@@ -46,4 +46,26 @@ if __name__ == "__main__":
     # watchdogs as a violation; its worker threads must not keep the check itself from returning its verdict).
     sys.stdout.flush()
     sys.stderr.flush()
+    # ... nor for processes: forked pool workers and Manager servers of the multiprocessing mode would keep the caller's pipe open
+    try:
+        import multiprocessing
+        import signal
+        for ch in multiprocessing.active_children():
+            try:
+                ch.kill()
+            except Exception:  # noqa: BLE001
+                pass
+        me = os.getpid()
+        for d in os.listdir("/proc"):
+            if d.isdigit():
+                try:
+                    with open("/proc/%s/stat" % d) as fh:
+                        st = fh.read()
+                    ppid = int(st[st.rindex(")") + 2:].split()[1])
+                    if ppid == me:
+                        os.kill(int(d), signal.SIGKILL)
+                except Exception:  # noqa: BLE001
+                    pass
+    except Exception:  # noqa: BLE001
+        pass
     os._exit(rc if isinstance(rc, int) else 1)
